@@ -1,0 +1,14 @@
+//go:build verif
+
+// Contracts for package rate, checked by /verif/govc (see /verif/DESIGN.md).
+// This file contains only comments: it adds no code to any build.
+
+package rate
+
+// Accumulate: ASSUMED (not verified): rate accounting only touches the
+// estimator's own fields (floating point, out of the verifier's reach).
+//@ func (*AtomicEstimator).Accumulate
+//@   trusted
+//@   requires e != nil
+//@   modifies heap:github.com/jech/storrent/rate.
+//@   props    C14
